@@ -149,6 +149,7 @@ type C04Mixed struct {
 	PatKey    uint64       `json:"pat_key"`
 	Streams   []StreamPlan `json:"streams"`
 	CloseEnd  bool         `json:"close_end"`
+	Neighbour bool         `json:"neighbour,omitempty"`
 }
 
 func genC04Mixed(g *Gen) any {
@@ -161,6 +162,18 @@ func genC04Mixed(g *Gen) any {
 		lim := min(20000, 100*pl.ReadBuf)
 		pl.Up, pl.Down = g.Int(0, lim), g.Int(0, lim)
 		sc.Streams = append(sc.Streams, pl)
+	}
+	if sc.PatKey%5 == 0 {
+		// a neighbour: another session of the same process under the plain method
+		// opens streams and sends its first (padded) frames while this session,
+		// under an authenticated method, sends its own first frames on many streams
+		sc.Neighbour = true
+		sc.RefServer = true // Cloak opens the streams: their first five frames each carry padding
+		sc.Sess.Method = byte(1 + sc.PatKey>>8%3)
+		sc.Streams = nil
+		for i := 0; i < g.Int(8, 16); i++ {
+			sc.Streams = append(sc.Streams, StreamPlan{SizeClass: 1, SizeSeed: g.Rng.Uint64(), ReadBuf: 4096, Up: g.Int(5, 40), Down: g.Int(0, 40)})
+		}
 	}
 	return sc
 }
@@ -200,6 +213,40 @@ func runC04Mixed(c *Ctx, scAny any) {
 	wl := &streamWorkload{c: c, key: sc.PatKey, limit: limit - 14 - 255}
 	for i, pl := range sc.Streams {
 		wl.states = append(wl.states, &streamState{plan: pl, tag: uint32(i)})
+	}
+	if sc.Neighbour {
+		var key2 [32]byte
+		for i := range key2 {
+			key2[i] = byte(c.Rng.Uint32())
+		}
+		obf2, _ := mux.MakeObfuscator(mux.EncryptionMethodPlain, key2)
+		sesh2 := mux.MakeSession(10, mux.SessionConfig{Obfuscator: obf2, InactivityTimeout: 3600e9})
+		peer2 := NewRefPeer(mux.EncryptionMethodPlain, key2, 0, c.Rng.Uint64())
+		a2, b2 := c.Net.Pipe("neighbour")
+		sesh2.AddConnection(common.NewTLSConn(a2))
+		peer2.AddConn(b2)
+		simsync.Go("h:neighbour-accept", func() {
+			for {
+				s, err := peer2.Accept()
+				if err != nil {
+					return
+				}
+				simsync.Go("h:neighbour-drain", func() { io.Copy(io.Discard, s) })
+			}
+		})
+		simsync.Go("h:neighbour", func() {
+			for k := 0; k < 40; k++ {
+				s, err := sesh2.OpenStream()
+				if err != nil {
+					return
+				}
+				for j := 0; j < 5; j++ {
+					if _, err := s.Write([]byte{byte(k), byte(j)}); err != nil {
+						return
+					}
+				}
+			}
+		})
 	}
 	closedOK := 0
 	wantClosed := 0
